@@ -154,4 +154,57 @@ mod verif_lazyraw_cache {
         //  and is left out: the loser's release inside load() is what is checked here)
         std::mem::forget(lr);
     }
+
+    // ---- views and clones of a raw value whose one-level parse is cached (findings F16, F17)
+    /// contract of LazyRaw::load (the publish-once cache, C18): Ok(&parsed) where `parsed` is the one-level parse of
+    /// the raw text — a LazyArray for an array, a LazyObject for an object
+    fn lazyraw_load_model(this: &LazyRaw) -> Result<&Parsed> {
+        let p: &'static Parsed = match this.raw.as_bytes()[0] {
+            b'[' => Box::leak(Box::new(Parsed::LazyArray(Vec::new()))),
+            b'{' => Box::leak(Box::new(Parsed::LazyObject(Vec::new()))),
+            _ => Box::leak(Box::new(Parsed::Null)),
+        };
+        Ok(p)
+    }
+
+    /// F16: the LazyArray / LazyObject view handed out by as_array / as_object on a STILL-RAW container can be used
+    /// (Deref) without reaching `unreachable!`
+    #[kani::proof]
+    #[kani::unwind(8)]
+    #[kani::stub(LazyRaw::load, lazyraw_load_model)]
+    fn owned_view_deref_total() {
+        let is_arr: bool = kani::any();
+        let raw: &'static [u8] = if is_arr { b"[]" } else { b"{}" };
+        let olv = OwnedLazyValue::new(JsonSlice::Raw(raw), HasEsc::Possible);
+        if is_arr {
+            match olv.as_array() { Some(v) => assert!(v.len() == 0), None => assert!(false) }
+            assert!(olv.as_object().is_none());
+        } else {
+            match olv.as_object() { Some(v) => assert!(v.len() == 0), None => assert!(false) }
+            assert!(olv.as_array().is_none());
+        }
+        std::mem::forget(olv);
+    }
+
+    /// F17: cloning a raw value whose parse is cached keeps the raw text (so the clone serializes verbatim, like the
+    /// original) and never shares the original's cache allocation
+    #[kani::proof]
+    #[kani::unwind(8)]
+    fn owned_clone_keeps_raw() {
+        let cached: bool = kani::any();
+        let orig_ptr: *mut Parsed = if cached { Box::into_raw(Box::new(Parsed::Bool(kani::any()))) } else { std::ptr::null_mut() };
+        let packed = LazyPacked::Raw(LazyRaw { raw: FastStr::from_static_str("1.50"), parsed: AtomicPtr::new(orig_ptr) });
+        let cloned = packed.clone();
+        match &cloned {
+            LazyPacked::Raw(r2) => {
+                assert!(r2.raw.as_bytes() == b"1.50");
+                let p2 = r2.parsed.load(Ordering::Relaxed);
+                assert!(p2.is_null() || p2 != orig_ptr);
+                assert!(cached || p2.is_null());
+            }
+            _ => assert!(false),
+        }
+        std::mem::forget(cloned);
+        std::mem::forget(packed);
+    }
 }
